@@ -82,8 +82,14 @@ def main():
     head = open(a.demo).read(600)
     if "KERAS3" in head.upper() and "LEGACY" not in head.upper():
       demo_env.pop("TF_USE_LEGACY_KERAS")
-    r1 = sh(["/venv/bin/python", os.path.abspath(a.demo)], env=demo_env, cwd="/var/tmp", timeout=1200)
-    r0 = sh(["/venv/bin/python", os.path.abspath(a.demo)], env=dict(demo_env, PYTHONPATH="/repo"), cwd="/var/tmp", timeout=1200)
+    # run a copy: python puts the script's own directory first on sys.path, and the agent's worktree
+    # (which holds a clean qkeras/) must not shadow the patched tree
+    ddir = tempfile.mkdtemp(prefix="seeddemo-", dir="/var/tmp")
+    dcopy = os.path.join(ddir, "demo.py")
+    shutil.copy(a.demo, dcopy)
+    r1 = sh(["/venv/bin/python", dcopy], env=demo_env, cwd=ddir, timeout=1200)
+    r0 = sh(["/venv/bin/python", dcopy], env=dict(demo_env, PYTHONPATH="/repo"), cwd=ddir, timeout=1200)
+    shutil.rmtree(ddir, ignore_errors=True)
     meta["demo"] = {"with_change_rc": r1.returncode, "without_change_rc": r0.returncode, "with_change_tail": r1.stdout[-400:]}
     meta["ran"].append("demo.py with the change -> rc %d, without -> rc %d" % (r1.returncode, r0.returncode))
     print("demo: with change rc=%d, without rc=%d" % (r1.returncode, r0.returncode))
